@@ -398,3 +398,227 @@ Section DocQObjEquiv.
         exists q, rsq, b0. rewrite Eov. repeat split; auto.
   Qed.
 End DocQObjEquiv.
+
+(* ================================================================ the engine on the preprocessed frame of a rule with a quoted object *)
+Definition qobj_rule_ok (rules : list rule) (rl : rule) : Prop :=
+  r_ok rl = KQuoted /\ r_sjoin rl = [] /\ r_ojoin rl = [] /\ pos_ok (r_sk rl) (r_sv rl) (r_stt rl) /\ pos_ok (r_pk rl) (r_pv rl) TIri /\
+  (r_ld rl = LDNone /\ r_ldk rl = KNone /\ r_ldv rl = []) /\
+  (pos_ok (r_gk rl) (r_gv rl) TIri \/ (r_gk rl = KNone /\ r_gv rl = [])) /\ tidy_graph rl /\
+  exists b, find_rule rules (r_ov rl) = Some b /\ simple_rule b.
+
+Section QObjRows.
+  Variables (scfg : scfg) (rl b : rule) (na refs : list ustr) (raws : list rawrow).
+  Hypothesis Hna : s_na scfg = na.
+  Hypothesis Hb : simple_rule b.
+  Hypothesis HS : pos_ok (r_sk rl) (r_sv rl) (r_stt rl).
+  Hypothesis HP : pos_ok (r_pk rl) (r_pv rl) TIri.
+  Hypothesis HG : pos_ok (r_gk rl) (r_gv rl) TIri \/ (r_gk rl = KNone /\ r_gv rl = []).
+  Hypothesis Htg : tidy_graph rl.
+  Hypothesis Hrefs : forall n, In n refs <-> In n (quoted_obj_names rl b).
+  Hypothesis Hcols : forall raw n, In raw raws -> In n refs -> assoc n raw <> None.
+
+  Let HGp : is_plain (r_gk rl) = true \/ (r_gk rl = KNone /\ r_gv rl = []).
+  Proof. destruct HG as [G|G]; [left; apply G|right; exact G]. Qed.
+
+  Lemma qobj_parts_ext sr1 sr2 : (forall n, In n (quoted_obj_names rl b) -> sval scfg sr1 n = sval scfg sr2 n) ->
+    spec_parts scfg b sr1 = spec_parts scfg b sr2 /\ rule_graph_opt scfg b sr1 = rule_graph_opt scfg b sr2 /\
+    spec_lex scfg (r_sk rl) (r_sv rl) (r_stt rl) [] sr1 = spec_lex scfg (r_sk rl) (r_sv rl) (r_stt rl) [] sr2 /\
+    spec_lex scfg (r_pk rl) (r_pv rl) TIri [] sr1 = spec_lex scfg (r_pk rl) (r_pv rl) TIri [] sr2 /\
+    rule_graph_opt scfg rl sr1 = rule_graph_opt scfg rl sr2.
+  Proof.
+    intro H. destruct (b_facts b Hb) as ((HSb & HPb & HOb & HLb & _) & _).
+    assert (Hbn : forall n, In n (rule_names b) -> sval scfg sr1 n = sval scfg sr2 n) by (intros n Hn; apply H; unfold quoted_obj_names; rewrite in_app_iff; tauto).
+    split; [|split; [|split; [|split]]].
+    - unfold spec_parts. rewrite (spec_lex_ext scfg (r_sk b) (r_sv b) (r_stt b) [] sr1 sr2 (proj1 HSb)) by (intros n Hn; apply Hbn; unfold rule_names; rewrite !in_app_iff; tauto).
+      rewrite (spec_po_ext scfg b sr1 sr2 HPb HOb HLb) by (intros n Hn; apply Hbn; unfold rule_names, po_names in *; rewrite !in_app_iff in *; tauto). reflexivity.
+    - apply rule_graph_opt_ext. intros n Hn. apply Hbn. unfold rule_names. rewrite !in_app_iff. tauto.
+    - apply spec_lex_ext; [apply HS|]. intros n Hn. apply H. unfold quoted_obj_names. rewrite !in_app_iff. tauto.
+    - apply spec_lex_ext; [apply HP|]. intros n Hn. apply H. unfold quoted_obj_names. rewrite !in_app_iff. tauto.
+    - apply rule_graph_opt_ext. intros n Hn. apply H. unfold quoted_obj_names. rewrite !in_app_iff. tauto.
+  Qed.
+
+  Lemma qobj_line_names sr x : doc_qobj_line scfg rl b sr = Some x -> forall n, In n (quoted_obj_names rl b) -> sval scfg sr n <> None.
+  Proof.
+    intros E n Hn. destruct (b_facts b Hb) as ((HSb & HPb & HOb & HLb & _) & (TLb & _) & Htgb & HGb).
+    unfold doc_qobj_line in E.
+    destruct (spec_parts scfg b sr) as [[[s p] o]|] eqn:Ep; [|discriminate]. destruct (rule_graph_opt scfg b sr) as [gb|] eqn:Egb; [|discriminate].
+    destruct (spec_lex scfg (r_sk rl) (r_sv rl) (r_stt rl) [] sr) as [s'|] eqn:Es'; [|discriminate].
+    destruct (spec_lex scfg (r_pk rl) (r_pv rl) TIri [] sr) as [p'|] eqn:Ep'; [|discriminate].
+    destruct (rule_graph_opt scfg rl sr) as [g|] eqn:Eg; [|discriminate].
+    unfold quoted_obj_names in Hn. rewrite !in_app_iff in Hn. destruct Hn as [Hn|[Hn|[Hn|Hn]]].
+    - unfold spec_parts in Ep. destruct (spec_lex scfg (r_sk b) (r_sv b) (r_stt b) [] sr) as [sl|] eqn:Es; [|discriminate].
+      destruct (spec_po scfg b sr) as [[pb ob]|] eqn:Epb; [|discriminate].
+      unfold rule_names in Hn. rewrite !in_app_iff in Hn. destruct Hn as [Hn|[Hn|[Hn|[Hn|Hn]]]].
+      + exact (spec_lex_some_names scfg _ _ _ _ sr sl (proj1 HSb) Es n Hn).
+      + apply (spec_po_some_names scfg b sr _ HPb HOb HLb TLb Epb). unfold po_names. rewrite !in_app_iff. tauto.
+      + apply (spec_po_some_names scfg b sr _ HPb HOb HLb TLb Epb). unfold po_names. rewrite !in_app_iff. tauto.
+      + apply (spec_po_some_names scfg b sr _ HPb HOb HLb TLb Epb). unfold po_names. rewrite !in_app_iff. tauto.
+      + exact (graph_names_some scfg b HGb Htgb sr gb Egb n Hn).
+    - exact (spec_lex_some_names scfg _ _ _ _ sr s' (proj1 HS) Es' n Hn).
+    - exact (spec_lex_some_names scfg _ _ _ _ sr p' (proj1 HP) Ep' n Hn).
+    - exact (graph_names_some scfg rl HGp Htg sr g Eg n Hn).
+  Qed.
+
+  Lemma qobj_kept_lines raw x : In raw raws -> raw_has_null refs raw = false -> row_has_null na refs (str_row raw) = false ->
+    (spec_quoted_obj_line scfg rl b (srow_of (null_to_text na (str_row raw))) = Some x <-> doc_qobj_line scfg rl b (srow_of_raw raw) = Some x).
+  Proof.
+    intros Hin C1 C2. set (c := srow_of (null_to_text na (str_row raw))).
+    assert (Ag : forall n, In n (quoted_obj_names rl b) -> sval scfg c n = sval scfg (srow_of_raw raw) n).
+    { intros n Hn. apply (kept_sval_rget scfg na refs raw n Hna C1 C2). now apply Hrefs. }
+    destruct (qobj_parts_ext c (srow_of_raw raw) Ag) as (E1 & E2 & E3 & E4 & E5).
+    assert (Some_all : forall n, In n (quoted_obj_names rl b) -> sval scfg (srow_of_raw raw) n <> None).
+    { intros n Hn. assert (Hn' : In n refs) by now apply Hrefs. destruct (kept_sval_rget scfg na refs raw n Hna C1 C2 Hn') as [E _]. rewrite sval_raw.
+      destruct (assoc n raw) as [cl|] eqn:Ec; [|exfalso; exact (Hcols raw n Hin Hn' Ec)].
+      assert (N1 : cl <> CNone /\ cl <> CNaN).
+      { split; intro X; subst cl; assert (Y : raw_has_null refs raw = true) by (apply raw_has_null_iff; exists n; auto); congruence. }
+      assert (N2 : mem (py_str cl) (s_na scfg) = false).
+      { destruct (mem (py_str cl) (s_na scfg)) eqn:X; auto. exfalso.
+        assert (Y : row_has_null na refs (str_row raw) = true)
+          by (apply row_has_null_iff; exists n, (py_str cl); repeat split; auto; [rewrite ReadersP.assoc_str_row, Ec; reflexivity|rewrite <- Hna; now apply mem_In]). congruence. }
+      rewrite N2. destruct cl; try discriminate; now destruct N1. }
+    assert (Tb : rule_graph_opt scfg b (srow_of_raw raw) <> None).
+    { apply (graph_opt_total scfg b). intros n Hn. apply Some_all. unfold quoted_obj_names, rule_names. rewrite !in_app_iff. tauto. }
+    assert (Tr : rule_graph_opt scfg rl (srow_of_raw raw) <> None).
+    { apply (graph_opt_total scfg rl). intros n Hn. apply Some_all. unfold quoted_obj_names. rewrite !in_app_iff. tauto. }
+    unfold spec_quoted_obj_line, doc_qobj_line, spec_graph_line. rewrite E1, E3, E4.
+    destruct (spec_parts scfg b (srow_of_raw raw)) as [[[s p] o]|]; [|tauto].
+    destruct (rule_graph_opt scfg b (srow_of_raw raw)) as [gb|]; [|now contradiction Tb].
+    destruct (spec_lex scfg (r_sk rl) (r_sv rl) (r_stt rl) [] (srow_of_raw raw)) as [s'|]; [|tauto].
+    destruct (spec_lex scfg (r_pk rl) (r_pv rl) TIri [] (srow_of_raw raw)) as [p'|]; [|tauto].
+    fold (rule_graph_opt scfg rl c). rewrite E5.
+    destruct (rule_graph_opt scfg rl (srow_of_raw raw)) as [g|]; [|now contradiction Tr].
+    destruct (s_nquads scfg); tauto.
+  Qed.
+
+  Theorem qobj_frame_rows_are_delivered_rows x :
+    (exists r, In r (preprocess na refs raws) /\ spec_quoted_obj_line scfg rl b (srow_of r) = Some x) <->
+    (exists raw, In raw raws /\ doc_qobj_line scfg rl b (srow_of_raw raw) = Some x).
+  Proof.
+    split.
+    - intros (r & Hr & Hx). apply preprocess_in in Hr as (raw & Hraw & H1 & H2 & ->). exists raw. split; auto. now apply (qobj_kept_lines raw x Hraw H1 H2).
+    - intros (raw & Hraw & Hx).
+      assert (All : forall n, In n refs -> sval scfg (srow_of_raw raw) n <> None) by (intros n Hn; apply (qobj_line_names _ x Hx); now apply Hrefs).
+      destruct (survive_of_some scfg na refs raw Hna All) as [H1 H2].
+      exists (null_to_text na (str_row raw)). split; [apply preprocess_in; exists raw; auto|]. now apply (qobj_kept_lines raw x Hraw H1 H2).
+  Qed.
+End QObjRows.
+
+Lemma quoted_subject_branch_plain {A} k (F : list (ustr * ustr) -> list A) j : is_plain k = true ->
+  (match k with KQuoted => F | _ => fun _ => [] end) j = [].
+Proof. destruct k; try discriminate; reflexivity. Qed.
+
+(* the columns a rule with a quoted object reads: those of the quoted rule and its own subject / predicate / graph *)
+Lemma qobj_refs_in fe rules rl : In rl rules -> qobj_rule_ok rules rl ->
+  forall b, find_rule rules (r_ov rl) = Some b -> forall n, In n (quoted_refs fe rules rl) <-> In n (quoted_obj_names rl b).
+Proof.
+  intros Hin (Hk & Hsj & Hoj & HS & HP & (El & Elk & Elv) & HG & _ & (b' & Hf' & Hsb)) b Hf n. rewrite Hf in Hf'. injection Hf' as <-.
+  unfold quoted_refs. rewrite mem_dedup, !app_nil_r. unfold refs_fuel.
+  assert (Hlen : exists f, length rules = S f) by (destruct rules; [contradiction|simpl; eauto]). destruct Hlen as (f & Hlen).
+  cbn [rule_refs]. rewrite Hk, Hsj, Hoj, Hf. cbn [pos_refs joins_child map app].
+  rewrite (quoted_subject_branch_plain (r_sk rl)) by apply HS. rewrite !app_nil_r, Hlen.
+  destruct Hsb as ((HSb & HPb & HOb & HLb & HGb) & (TLb & TGb) & _ & Hpl & Hsjb & Hojb).
+  unfold plain_rule in Hpl. rewrite !andb_true_iff, !negb_true_iff in Hpl. destruct Hpl as [[[_ Q2] Q3] _].
+  rewrite (rule_refs_plain _ _ _ b Q2 Q3), Hsjb, Hojb. cbn [joins_child map app]. rewrite !app_nil_r.
+  rewrite (pos_refs_names _ (r_sk b) (r_sv b)) by (left; split; apply HSb).
+  rewrite (pos_refs_names _ (r_pk b) (r_pv b)) by (left; split; apply HPb).
+  rewrite (pos_refs_names _ (r_ok b) (r_ov b)) by (left; split; apply HOb).
+  rewrite (pos_refs_names _ (r_gk b) (r_gv b)) by (destruct (HGb eq_refl) as [G|G]; [left; split; apply G|]; right; split; auto; apply TGb; now rewrite G).
+  rewrite (pos_refs_names _ (r_ldk b) (r_ldv b)) by (destruct (r_ld b) eqn:E; [right; now apply TLb|left; split; apply HLb; discriminate|left; split; apply HLb; discriminate]).
+  rewrite (pos_refs_names _ (r_sk rl) (r_sv rl)) by (left; split; apply HS).
+  rewrite (pos_refs_names _ (r_pk rl) (r_pv rl)) by (left; split; apply HP).
+  rewrite (pos_refs_names _ (r_gk rl) (r_gv rl)) by (destruct HG as [G|G]; [left; split; apply G|now right]).
+  rewrite (pos_refs_names _ (r_ldk rl) (r_ldv rl)) by (right; auto).
+  unfold quoted_obj_names, rule_names. rewrite Elk, Elv. cbn [segs_of parse_template names]. rewrite !in_app_iff. assert (E0 : names (parse_template []) = @nil ustr) by reflexivity. rewrite E0. cbn [In]. tauto.
+Qed.
+
+Section FinalQObj.
+  Variables (cfg : ecfg) (fe : fenv) (scfg : scfg) (raw : ustr -> list rawrow).
+  Hypothesis Hcfg : cfg_agree cfg scfg.
+  Hypothesis Hnq : c_nquads cfg = s_nquads scfg.
+  Hypothesis Hna : s_na scfg = c_na cfg.
+
+  Theorem engine_document_is_spec_document_qobj d0 rules l :
+    qobj_doc d0 = true -> normalise d0 = Ok rules -> nodupb (map r_id rules) = true ->
+    (forall rl, In rl rules -> simple_rule rl \/ qobj_rule_ok rules rl) ->
+    (forall rl rw n, In rl rules -> In rw (raw (r_src rl)) -> In n (rule_ref_set fe rules rl) -> assoc n rw <> None) ->
+    materialize_rules cfg fe rules (delivered cfg raw) = Ok l ->
+    forall x, In x l <-> In x (spec_lines scfg fe d0 (spec_tables raw)).
+  Proof.
+    intros Hqd Hnorm Hnr Hrules Hcols Hm x.
+    rewrite (asserted_exactly cfg fe rules (delivered cfg raw) l Hm x).
+    rewrite (doc_spec_is_rule_spec_qobj scfg fe (spec_tables raw) d0 rules Hqd Hnorm Hnr x).
+    assert (Plain : forall rl ls, In rl rules -> simple_rule rl -> rule_triples cfg fe rules (delivered cfg raw) rl = Ok ls ->
+              forall y, In y ls <-> exists rw, In rw (raw (r_src rl)) /\ doc_rule_line scfg rl (srow_of_raw rw) = Some y).
+    { intros rl ls Hrl Hs Hls y. pose proof Hs as Hs0. destruct Hs as (Hok & Ht & Htg & Hplain & Hsj & Hoj).
+      assert (Hok' : rule_ok (c_nquads cfg) rl) by now apply rule_ok_any.
+      set (refs := rule_ref_set fe rules rl).
+      assert (Hrefs : forall n, In n refs <-> In n (rule_names rl)) by (apply rule_ref_set_names; exact Hs0).
+      destruct (plain_rule_is_spec cfg fe rules (delivered cfg raw) scfg Hcfg Hnq rl (c_na cfg) refs (raw (r_src rl)) Hna Hplain Hok'
+                  (fun n Hn0 => proj2 (Hrefs n) Hn0) eq_refl) as [H1 _].
+      rewrite (H1 ls Hls y). apply (frame_rows_are_delivered_rows scfg rl (c_na cfg) refs (raw (r_src rl)) Hna Hs0 Hrefs).
+      intros rw n Hrw Hn0. exact (Hcols rl rw n Hrl Hrw Hn0). }
+    assert (Quoted : forall rl ls, In rl rules -> qobj_rule_ok rules rl -> rule_triples cfg fe rules (delivered cfg raw) rl = Ok ls ->
+              exists b, find_rule rules (r_ov rl) = Some b /\
+              forall y, In y ls <-> exists rw, In rw (raw (r_src rl)) /\ doc_qobj_line scfg rl b (srow_of_raw rw) = Some y).
+    { intros rl ls Hrl Hq Hls. pose proof Hq as Hq0.
+      destruct Hq as (Hk & Hsj & Hoj & HS & HP & (El & Elk & Elv) & HG & Htg & (b & Hf & Hsb)). exists b. split; [exact Hf|]. intro y.
+      set (refs := quoted_refs fe rules rl).
+      assert (Hrefs : forall n, In n refs <-> In n (quoted_obj_names rl b)) by (apply (qobj_refs_in fe rules rl Hrl Hq0 b Hf)).
+      pose proof Hsb as Hsb0. destruct Hsb as (Hokb & Htb & Htgb & Hplb & Hsjb & Hojb).
+      assert (Hfree : names_free (quoted_obj_names rl b)).
+      { intros n Hn1. unfold quoted_obj_names in Hn1. rewrite !in_app_iff in Hn1. destruct Hokb as (HSb & HPb & HOb & HLb & HGb). destruct Htb as [TLb TGb].
+        destruct Hn1 as [Hn1|[Hn1|[Hn1|Hn1]]].
+        - unfold rule_names in Hn1. rewrite !in_app_iff in Hn1. destruct Hn1 as [Hn1|[Hn1|[Hn1|[Hn1|Hn1]]]].
+          + now apply HSb. + now apply HPb. + now apply HOb.
+          + destruct (r_ld b) eqn:E; [destruct (TLb eq_refl) as [A B]; rewrite A, B in Hn1; contradiction|apply (HLb ltac:(discriminate)); exact Hn1|apply (HLb ltac:(discriminate)); exact Hn1].
+          + destruct (HGb eq_refl) as [G|G]; [now apply G|]. assert (X : r_gv b = []) by (apply TGb; now rewrite G). rewrite G, X in Hn1. contradiction.
+        - now apply HS.
+        - now apply HP.
+        - destruct HG as [G|[A B]]; [now apply G|rewrite A, B in Hn1; contradiction]. }
+      assert (HGk : graph_ok (c_nquads cfg) rl) by (intros _; destruct HG as [G|[G _]]; [now left|now right]).
+      destruct (quoted_obj_rule_is_spec cfg fe rules (delivered cfg raw) scfg Hcfg Hnq rl b Hk El Hoj Hf Hplb (rule_ok_any false b Hokb) HS HP HGk Hfree
+                  (c_na cfg) refs (raw (r_src rl)) Hna (fun n Hn0 => proj2 (Hrefs n) Hn0) eq_refl) as [H1 _].
+      rewrite (H1 ls Hls y).
+      apply (qobj_frame_rows_are_delivered_rows scfg rl b (c_na cfg) refs (raw (r_src rl)) Hna Hsb0 HS HP HG Htg Hrefs).
+      intros rw n Hrw Hn0. exact (Hcols rl rw n Hrl Hrw Hn0). }
+    assert (All : forall rl, In rl rules -> r_asserted rl = true -> exists ls, rule_triples cfg fe rules (delivered cfg raw) rl = Ok ls).
+    { intros rl Hrl Ha. unfold materialize_rules in Hm. destruct (rmap_all _ (filter r_asserted rules)) as [lss|e] eqn:E; [|discriminate].
+      apply rmap_all_ok in E. assert (X : In rl (filter r_asserted rules)) by (apply filter_In; auto).
+      destruct (Forall2_in_l _ _ _ _ E X) as (ls & _ & Hls). eauto. }
+    assert (Kind : forall rl, simple_rule rl -> r_ok rl <> KQuoted).
+    { intros rl (_ & _ & _ & Hp & _) E. unfold plain_rule in Hp. rewrite E in Hp. cbn [mkind_eqb negb] in Hp. now rewrite !andb_false_r in Hp. }
+    split.
+    - intros (rl & ls & Hrl & Ha & Hls & Hx). destruct (Hrules rl Hrl) as [Hs|Hq].
+      + left. apply (Plain rl ls Hrl Hs Hls) in Hx as (rw & Hrw & Hline). exists rl, (srow_of_raw rw). split; [exact Hrl|]. split; [exact Ha|]. split; [now apply Kind|].
+        split; [unfold spec_tables; now apply in_map|exact Hline].
+      + right. destruct (Quoted rl ls Hrl Hq Hls) as (b & Hf & Hiff). apply Hiff in Hx as (rw & Hrw & Hline).
+        exists rl, b, (srow_of_raw rw). split; [exact Hrl|]. split; [exact Ha|]. split; [apply Hq|]. split; [exact Hf|]. split; [unfold spec_tables; now apply in_map|exact Hline].
+    - intros [(rl & sr & Hrl & Ha & Hnk & Hsr & Hline)|(rl & b & sr & Hrl & Ha & Hk & Hfb & Hsr & Hline)].
+      + destruct (Hrules rl Hrl) as [Hs|Hq]; [|exfalso; apply Hnk; apply Hq].
+        unfold spec_tables in Hsr. apply in_map_iff in Hsr as (rw & <- & Hrw).
+        destruct (All rl Hrl Ha) as (ls & Hls). exists rl, ls. repeat split; auto. apply (Plain rl ls Hrl Hs Hls). eauto.
+      + destruct (Hrules rl Hrl) as [Hs|Hq]; [exfalso; now apply (Kind rl Hs)|].
+        unfold spec_tables in Hsr. apply in_map_iff in Hsr as (rw & <- & Hrw).
+        destruct (All rl Hrl Ha) as (ls & Hls). exists rl, ls. repeat split; auto.
+        destruct (Quoted rl ls Hrl Hq Hls) as (b' & Hf' & Hiff). rewrite Hfb in Hf'. injection Hf' as <-. apply Hiff. eauto.
+  Qed.
+End FinalQObj.
+
+(* ---------------------------------------------------------------- decidable hypotheses *)
+Lemma qobj_ruleb_ok rules rl : qobj_ruleb rules rl = true -> qobj_rule_ok rules rl.
+Proof.
+  unfold qobj_ruleb, qobj_rule_ok. rewrite !andb_true_iff. intros [[[[[[[A B] C] D] E] F] G] H].
+  split; [now apply mkind_eqb_eq|]. split; [destruct (r_sjoin rl); [reflexivity|discriminate]|]. split; [destruct (r_ojoin rl); [reflexivity|discriminate]|].
+  split; [now apply pos_okb_ok|]. split; [now apply pos_okb_ok|].
+  split. { destruct (r_ld rl); try discriminate. apply andb_true_iff in F as [F1 F2]. split; [reflexivity|]. split; [now apply mkind_eqb_eq|now apply ueqb_eq]. }
+  split. { destruct (is_plain (r_gk rl)); apply andb_true_iff in G as [G1 G2]; [left; now apply pos_okb_ok|right; split; [now apply mkind_eqb_eq|now apply ueqb_eq]]. }
+  split. { unfold tidy_graph. intros Hg Hd. rewrite Hg in G. apply andb_true_iff in G as [_ G2]. rewrite Hd in G2. cbn [negb orb] in G2. now apply mkind_eqb_eq. }
+  destruct (find_rule rules (r_ov rl)) as [b|]; [|discriminate]. exists b. split; [reflexivity|now apply simple_ruleb_ok].
+Qed.
+Theorem theorem_applies_qobj_ok d0 : theorem_applies_qobj d0 = true ->
+  qobj_doc d0 = true /\ exists rules, normalise d0 = Ok rules /\ nodupb (map r_id rules) = true /\ forall rl, In rl rules -> simple_rule rl \/ qobj_rule_ok rules rl.
+Proof.
+  unfold theorem_applies_qobj. rewrite andb_true_iff. intros [A D]. split; [exact A|].
+  destruct (normalise d0) as [rules|e]; [|discriminate]. exists rules. apply andb_true_iff in D as [D1 D2]. split; [reflexivity|]. split; [exact D1|].
+  intros rl Hrl. rewrite forallb_forall in D2. specialize (D2 rl Hrl). apply orb_true_iff in D2 as [D2|D2]; [left; now apply simple_ruleb_ok|right; now apply qobj_ruleb_ok].
+Qed.
